@@ -130,3 +130,90 @@ func VerifC08Fkeys() {
 		rt.Assert("no-orphan", fk == "" || rtx.Lookup("hdr", 0, vpk(fk)) != nil)
 	}
 }
+
+// C08 with two source tables referencing the same target key through foreign keys of different
+// modes (so a cascading and a blocking foreign key meet on one key), optionally after a schema
+// change on the other source table (dropped, or its foreign key index dropped): deleting or
+// re-keying the target row is refused iff some source row references it through a foreign key
+// that does not cascade that kind of change; otherwise the change goes through, cascading sources
+// follow, and no orphan remains.
+//
+//symgo:harness prop=C08 tier=quick shards=16 timeout=500 ttimeout=1700 bounds=1_target_row;2_source_tables_(same_column_names)_x_0..1_rows;modes_in_{block,cascade_update,cascade}^2;optional_drop_of_the_first_source_table_or_of_its_fk_index;delete_or_key_update_of_the_target
+func VerifC08TwoSources() {
+	modes := []byte{schema.Block, schema.CascadeUpdates, schema.Cascade}
+	m1, m2 := modes[rt.Pick("mode1", 3)], modes[rt.Pick("mode2", 3)]
+	db := vnewdb()
+	db.Create(&schema.Schema{Table: "hdr", Columns: []string{"k"}, Indexes: []schema.Index{vkey("k")}})
+	mk := func(name string, mode byte) {
+		db.Create(&schema.Schema{Table: name, Columns: []string{"id", "k"},
+			Indexes: []schema.Index{vkey("id"),
+				{Mode: 'i', Columns: []string{"k"}, Fk: schema.Fkey{Table: "hdr", Columns: []string{"k"}, Mode: mode}}}})
+	}
+	mk("lin1", m1)
+	mk("lin2", m2)
+	k := rt.Str("k", 1)
+	has1, has2 := rt.Pick("row1", 2) == 1, rt.Pick("row2", 2) == 1
+	ut := db.NewUpdateTran()
+	ut.Output(nil, "hdr", vmkrec(k))
+	if has1 {
+		ut.Output(nil, "lin1", vmkrec("1", k))
+	}
+	if has2 {
+		ut.Output(nil, "lin2", vmkrec("1", k))
+	}
+	rt.Assert("setup/commit", vcommit(db, ut, true))
+	lin1There := true
+	switch rt.Pick("schema-change", 3) {
+	case 1:
+		db.Drop("lin1")
+		lin1There, has1 = false, false
+	case 2:
+		db.AlterDrop(&schema.Schema{Table: "lin1", Indexes: []schema.Index{{Mode: 'i', Columns: []string{"k"}}}})
+		m1 = 0xff // no foreign key any more: lin1 rows neither block nor follow
+	}
+	rt.Reach("prepared")
+	ut = db.NewUpdateTran()
+	rec := ut.Lookup("hdr", 0, vpk(k))
+	rt.Assert("lookup-target", rec != nil)
+	del := rt.Pick("op", 2) == 0
+	bit := byte(schema.CascadeUpdates)
+	if del {
+		bit = schema.CascadeDeletes
+	}
+	blocks := func(has bool, mode byte) bool { return has && mode != 0xff && mode&bit == 0 }
+	follows := func(has bool, mode byte) bool { return has && mode != 0xff && mode&bit != 0 }
+	k2 := rt.Str("k2", 1)
+	rt.Assume(k2 != k)
+	refused := vtry(func() {
+		if del {
+			ut.Delete(nil, "hdr", rec.Off)
+		} else {
+			ut.Update(nil, "hdr", rec.Off, vmkrec(k2))
+		}
+	})
+	rt.Assert("two-sources/refused-iff-a-non-cascading-reference-exists", refused == (blocks(has1, m1) || blocks(has2, m2)))
+	if !refused {
+		rt.Assert("two-sources/commit", vcommit(db, ut, true))
+	}
+	rtx := db.NewReadTran()
+	check := func(table string, has bool, mode byte) {
+		row := rtx.Lookup(table, 0, vpk("1"))
+		switch {
+		case !has:
+			rt.Assert("two-sources/no-row", row == nil)
+		case refused || !follows(has, mode):
+			rt.Assert("two-sources/source-unchanged", row != nil && row.Record.GetStr(1) == k)
+		case del:
+			rt.Assert("two-sources/cascade-deleted", row == nil)
+		default:
+			rt.Assert("two-sources/cascade-updated", row != nil && row.Record.GetStr(1) == k2)
+		}
+		if row != nil && mode != 0xff {
+			rt.Assert("two-sources/no-orphan", rtx.Lookup("hdr", 0, vpk(row.Record.GetStr(1))) != nil)
+		}
+	}
+	if lin1There {
+		check("lin1", has1, m1)
+	}
+	check("lin2", has2, m2)
+}
